@@ -62,12 +62,16 @@ definitions of the members' own struct types, recursively — plus every aspect
 listed in `Ignored`): re-attach is accepted iff the COMPARED part of the meaning
 is unchanged.  `equivalentCallFull` is `Ast.EquivalentCall` as repaired for F20:
 `CallStm.EquivalentTo` on the top-level calls, then `structComparer.call`.
-What it ignores, exactly as the Go code does, is the `ignored` component —
+What it ignores, as the Go code does, is the `ignored` component —
 constructor by constructor `Ignored.calleeName`, `.volatile`, `.stageSrc`,
 `.resources`, `.retain`, `.chunkParams`, `.fileTypeName` (scalar file kinds
 only), `.outName` (stage outputs, non-file pipeline outputs), `.help` — and what
 is not meaning at all (comments, whitespace, every ordering, include structure,
-unreachable callables and types).  Each ignored aspect has its own edit class
+unreachable callables and types).  The enumeration covers the CALL tree; in the
+struct-definition pass the code also ignores the help strings and output file names
+of struct MEMBERS (and the file-type name of a scalar file member): those are left
+out of `tyTree` but are NOT `Ignored` constructors — the `ignored` component is a
+lower bound of what Go ignores, not an exact list.  Each ignored aspect has its own edit class
 in the correspondence harness, which checks that the real code accepts it AND
 that the model sees exactly that aspect change.  Hypotheses (checked by the
 driver on every real AST): the compiled ASTs are well formed; member names of
@@ -280,7 +284,8 @@ theorem lock_file_created_exclusively :
 /-- Regenerated obligation (repair of the "refused start deletes the running
 pipestance" defect): the error branch of `Runtime.InvokePipeline` after
 `instantiatePipeline` — where a start that lost the race for the lock arrives with
-PipestanceLockedError — does not remove the pipestance directory unconditionally.
+PipestanceLockedError, or that failed even before `Lock()` — removes the pipestance
+directory only under the guard "this call took the lock".
 (False on a tree where it does: negative witness `lts_refused_start_removes_owners_lock`.) -/
 theorem refused_start_keeps_directory :
     Gen.c15RefusedStartRemovesDir_extracted = true ∧ Gen.c15RefusedStartRemovesDir = false := by decide
@@ -325,6 +330,24 @@ start-race stream of the harness): a refused start that removes the directory re
 the owner's lock, and a third mrp becomes a second owner. -/
 theorem lts_refused_start_removes_owners_lock :
     ∃ s, run false true disciplined init [.start 1, .register 1, .start 2, .start 3] = some s
+      ∧ s.holders = [3, 1] := by
+  exact ⟨_, rfl, rfl⟩
+
+open Martian.LockLTS in
+/-- …and so does a start that FAILS before it reaches `Lock()` (its own source does not
+parse / compile, call-graph error): since the second repair (`InvokePipeline` removes the
+contents of the folder only when this call took the lock) it changes nothing, in ANY state. -/
+theorem lts_failed_start_changes_nothing (s : St) (p : Nat) :
+    step Gen.c15RegisterFirst Gen.c15RefusedStartRemovesDir s (.startFail p) = (s, false) := by
+  rw [handler_registered_after_check.2, refused_start_keeps_directory.2]
+  simp [step]
+
+open Martian.LockLTS in
+/-- Negative witness (the residual defect, reproduced by the start-race stream with a second
+starter whose source does not compile): a failed start that removes the directory removes
+the owner's lock, and a third mrp becomes a second owner. -/
+theorem lts_failed_start_removes_owners_lock :
+    ∃ s, run false true disciplined init [.start 1, .register 1, .startFail 2, .start 3] = some s
       ∧ s.holders = [3, 1] := by
   exact ⟨_, rfl, rfl⟩
 
